@@ -33,7 +33,13 @@
 // 'ab'), and repeats the text of the base path inside B (/top/b/top/b/f): the
 // alphabet is spelled for that world (segment "b" = the base's name, "bb" = the
 // sibling's) and everything that takes a pattern or returns paths is judged
-// against the twin as elsewhere. No sampling, no fault injection.
+// against the twin as elsewhere; MemFS+kept-errors (kept.go) puts wrapper and
+// reference on a FailFS whose failure function refuses the calls that name two
+// locations of B with error values it KEEPS (one prepared *fs.PathError /
+// *os.LinkError per distinct call, the same pointer every time): every call
+// that received such a value is made a second time in the same step, and the
+// kept values must be unchanged after it. No sampling; no fault injection
+// anywhere else.
 //
 // Oracle on every call:
 //  1. everything outside B in the base (node-graph lines of VerifDump + exact
@@ -47,6 +53,8 @@
 //     -> kind leak
 //     and the base's cwd stays what the reference's is (or, outside B, where
 //     a call on the base has put it)                      -> kind cwd
+//  4. (kept-errors) the error values the base keeps have the fields they were
+//     prepared with                                       -> kind base-error-modified
 //
 // Not demanded (counted as informational notes in the evidence, never
 // reported): calls on which the reference itself panics/deadlocks
@@ -55,7 +63,8 @@
 // (ref-root-unaddressable).
 //
 // Alphabet and levels: see ops.go. Files: ops.go (alphabet), exec.go (calls and
-// outcome capture), sys.go (system, oracle, signatures), bench.go (dev aid).
+// outcome capture), sys.go (system, oracle, signatures), kept.go (the base that
+// keeps its error values), bench.go (dev aid).
 //
 //	./check C10 quick|thorough [-depth n] [-systems MemFS,OrefaFS] [-replay replays/C10-xxxx.json]
 package main
@@ -101,7 +110,7 @@ func main() {
 	tier := flag.String("tier", "quick", "")
 	depth := flag.Int("depth", 0, "history length bound (default: 2 quick, 3 thorough)")
 	systems := flag.String("systems", "MemFS,OrefaFS", "")
-	variants := flag.Bool("variants", true, "also explore, for every system, the base-path spellings (<fs>@<class>) and, over MemFS, the links leaving B (MemFS+out-links), the read-only base (MemFS+ro) and the non-administrator user (MemFS+user), and the names of the base directory (<fs>+name:<class>)")
+	variants := flag.Bool("variants", true, "also explore, for every system, the base-path spellings (<fs>@<class>) and, over MemFS, the links leaving B (MemFS+out-links), the read-only base (MemFS+ro), the non-administrator user (MemFS+user) and the base that keeps its error values (MemFS+kept-errors), and the names of the base directory (<fs>+name:<class>)")
 	replay := flag.String("replay", "", "re-execute a replay file and print what happens")
 
 	bench := flag.String("selfbench", "", "development aid: expand the initial state of the named base in-process; -prof writes a CPU profile")
@@ -206,6 +215,10 @@ func main() {
 					vs = append(vs, sn+v)
 					maxDepth[sn+v] = 1
 				}
+
+				// a base that keeps the error values it returns (kept.go): as deep as
+				// the spellings of the base path (Chdir, then the locked names from there)
+				vs = append(vs, sn+"+kept-errors")
 			}
 
 			// the name of the base directory (ops.go, nameWorlds): over MemFS as
@@ -392,6 +405,8 @@ func main() {
 
 	bound += fmt.Sprintf("; <fs>+name:<class>, %s: B=/top/<name> with the sibling /top/<sibling> (dir k, file f) outside B instead of %s, for (class, name, sibling) in %q, B and the reference's root holding in addition %s/f spelled for that world (the text of the base path once more inside B); first level = the same %d operations with every segment \"b\" of their operands, patterns, Sub directories, link targets and base.Chdir targets replaced by <name> and every segment \"bb\" by <sibling>, which include %d strings x the single-path calls naming the nested copy and patterns over it (%q; executed in these worlds only, skipped and not counted elsewhere)", nameDepth, siblingPath, nameWorlds, nestedDir[1:], compactOps(ops), len(nameStrings), nameStrings)
 
+	bound += fmt.Sprintf("; MemFS+kept-errors, explored like the spellings of B (history length <= %d): BasePathFS(failfs.New(base)) against failfs.New(reference), both with a failure function that refuses the calls %v whose operand (either operand of Rename/Link) names, resolved lexically from the current directory, a location at or below %v of B / of the reference's root, answering each distinct call (function, operands as received) with one prepared *fs.PathError / *os.LinkError value (permission denied, paths as received: below B on the base's side) that it keeps and returns again, the same pointer, whenever that call comes back; first level = the same %d operations without those made through Sub views and Sub itself (skipped, not counted); a call during which the base handed out a kept value is made a second time on both sides within the step (sub-outcomes labelled again)", d, keptFnNames(), keptLocked, compactOps(ops))
+
 	e := ev.Evidence{
 		PropertyID: *id, Tier: *tier, Seed: ev.Seed(), Level: "model_checking",
 		Coverage: map[string]any{
@@ -422,7 +437,8 @@ func main() {
 			"views returned by Sub are obtained and used inside one step (no view survives a step) for d in /a and /; over an OrefaFS base Sub is refused on both sides and nothing follows. A view that does not advertise FeatSymlink is expected to refuse Symlink/Readlink/EvalSymlinks as the wrapper does (EPERM, arguments as given, no effect); otherwise every call through the view, and every later call through the wrapper on what was created through it, must have the outcome and effect of the same call on the reference's Sub view / the reference. A read through the wrapper or a view that returns what the base holds at the place the operand or link target names in the BASE's namespace, outside B (outside the view), is kind outside-read; signatures of these steps have call Sub:<call> or SubLink[W].<sub-call>, path sub:<class> or link:abs|rel,<escape|view-existing|view-missing>, reach inside|above-view|outside-existing|outside-missing",
 			"symbolic links exist only over a MemFS base (OrefaFS has none: the operations naming them are skipped there and not counted); they are made through the base (and through the reference, same target strings) at setup, never between calls; the wrapper itself refuses Symlink/Readlink/EvalSymlinks, so link targets are compared through the node graphs, and the targets printed by the dump of a Sub view are left out",
 			"variant systems share the reference, hence the verdict, of the main ones; their signatures carry variant=basepath:<class> | out-links | name:<class> (the reference of a name world holds the nested copy too). In the out-links world the reference holds links with the same target strings, which there name its own namespace (absolute) or stop at its root (climbing), as in a chroot: a call through such a link that the base resolves outside B is kind outside-read / outside-changed (reach outside-via-link when the operand's own path stays in B)",
-			"failures of the base are produced only by file systems of the library used as they are - the read-only view rofs.New (variant ro: every mutating call refused) and MemFS's own permission checks for a non-administrator user (variant user) -, never by fault injection (no FailFS); in both variants the reference is built the same way (rofs.New(standalone), same user in the same world), so outcome kinds, effects and error paths are compared as everywhere else; signatures carry variant=ro|user; an error path that names an entry of the directory the reference's error names is classed entry-of-virtual-path",
+			"failures of the base are produced only by file systems of the library used as they are - the read-only view rofs.New (variant ro: every mutating call refused) and MemFS's own permission checks for a non-administrator user (variant user) -, never by fault injection, with the one exception of the variant kept-errors (next assumption); in both variants the reference is built the same way (rofs.New(standalone), same user in the same world), so outcome kinds, effects and error paths are compared as everywhere else; signatures carry variant=ro|user; an error path that names an entry of the directory the reference's error names is classed entry-of-virtual-path",
+			"variant kept-errors (MemFS): the only use of fault injection. The library's FailFS stands between the wrapper and the base, and around the reference, with one failure function per side (same rule, own namespace) that refuses by CALL: the functions listed in the bound whose operand lies at or below the locked locations; nothing else fails. The function works per call, not per node, so the system is restricted to where both sides consult it for the same calls: no locked entry in B's root (RemoveAll of the root is taken apart by the wrapper), no Sub views, and the reference walks with the library's generic walker avfs.WalkDir over its failing Lstat/ReadDir as the wrapper does (FailFS.WalkDir would consult the function for the root only). The error values are prepared once per distinct call and kept by the failure function (the same pointer is returned again): that a file system may keep the error values it returns is assumed to be legitimate for an avfs.VFS (nothing in the interface gives them to the caller); kind base-error-modified = after a step some kept value of the base's side no longer has the fields it was prepared with; such a state is not expanded and the instances are rebuilt (the kept values are hidden state outside the state key); signatures carry variant=kept-errors, the second execution of a call has call=<call>.again[.<sub-call>]",
 			"variants name:<class>: the name of the base directory is chosen among names that are legitimate for the file system (Linux type: any byte but '/' and NUL) and mean something as a glob pattern; the operations are those of the alphabet, written for B=/top/b and its sibling /top/bb and spelled for the world by replacing whole segments (\"b\" -> <name>, \"bb\" -> <sibling>), so the virtual namespace also gets entries named like the base directory and patterns made of its name; the reference receives the same spelled strings; signatures are written in the alphabet's spelling (FileInfo.Name of the base directory is reported as name=b) and carry variant=name:<class>, basecwd=pattern-sibling when the base's cwd is in a sibling that is not a prefix sibling; replays name the operation in the alphabet's spelling, the detail gives op_as_spelled",
 			"file handles are exercised inside compound operations (Open/OpenFile, methods, Close): no handle survives a step",
 		},
@@ -441,6 +457,19 @@ func main() {
 		*tier, states, trans, len(classes), d, depthDone, exh, violTrans, rep.Total, rep.NewCount(), ev.Elapsed())
 
 	os.Exit(code)
+}
+
+// keptFnNames lists the functions of keptFns by name, sorted.
+func keptFnNames() []string {
+	var l []string
+
+	for f := range keptFns {
+		l = append(l, f.String())
+	}
+
+	sort.Strings(l)
+
+	return l
 }
 
 func spellingList() []string {
